@@ -79,7 +79,7 @@ Inductive event := ERun (r : rin) | EExec (x : xev).
 
 Inductive out :=
 | OReady                                  (* CheckReadiness was called *)
-| OTimer (d : Z)                          (* clock.NewTimer(d) *)
+| OTimer (d : Z) (fired : bool)           (* clock.NewTimer(d); did the timer (not an update) end the select *)
 | OX (e : xev) (r : xres)                 (* executor step and what became of it *)
 | OExit (id : N)                          (* Execute() of executor id returned *)
 | OCancel (id : N)                        (* executor id saw ctx.Done() while running *)
@@ -166,7 +166,8 @@ Definition phase_updates (rep : rstate) (next now : Z) (sl : option slot) (sel :
   | None => (rep, next, None, [])
   | Some x =>
     let '(x1, o2) := if avail x then (x, []) else xsteps x sel in
-    let o := OTimer (next - now) :: o2 in
+    let fired := match recv x1 with (RcvBlock, _) => true | _ => false end in
+    let o := OTimer (next - now) fired :: o2 in
     match recv x1 with
     | (RcvBlock, _) => (rep, next, Some x1, o)                     (* timer fires *)
     | (RcvNil, _) => (rep, Z.min next now, None, o)
